@@ -8,8 +8,8 @@ from . import C13
 
 META = {
     "level": "other",
-    "explanation": "Ownership, translation and error-discipline check of every stream access and every foreign raiser on the parse side: (R1) every raw call of read/write/seek/tell/close on a stream that came in from outside (or wraps one) is *translated*: it sits inside a try whose handler is total (`except Exception`) and raises StreamError(path) -- today that is the seven stream_* helpers; stream wrapper classes (their methods are only reached through the helpers), debug.py, Pickled and Numpy are outside the property's fragment; (R2) stream_read rejects negative lengths before reading and short data after, stream_write rejects non-bytes, negative length, length mismatch and short writes, and every helper translates; together with R1 this makes 'no value from fewer bytes than required' a per-site fact; (R3) in every parse-side method (_parse, _decode, _actualsize and their closures) every call that can raise a non-ConstructError -- package helpers whose own summary shows an escaping `raise ValueError`, struct.pack/unpack, bytes.decode/str.encode -- is covered by a handler that catches that class and raises a ConstructError subclass; opaque external calls are allowed only in the frozen list of callback/codec carriers; (R4) handlers that can swallow ExplicitError re-raise it first (shared with C13.R5); (R5) no recovery handler reads a local that is unbound on the exceptional edge entering it. (R7) every division or modulo whose divisor is computed at parse time from the context or the data is preceded on its path by a guard excluding zero (no ZeroDivisionError escapes); R2 also carries the code-unit table (a terminator narrower than the unit accepts strict prefixes).",
-    "undecided": "Termination (e.g. GreedyRange over a zero-width element never ends -- a progress argument over arbitrary sub-constructs is out of reach; not decided, not a finding); TypeErrors from ill-typed context values; the k-th-operation fault model is covered only through R1+R2 (every operation is one of seven guarded sites).",
+    "explanation": "Ownership, translation and error-discipline check of every stream access and every foreign raiser on the parse side: (R1) every raw call of read/write/seek/tell/close on a stream that came in from outside (or wraps one) is *translated*: it sits inside a try whose handler is total (`except Exception`) and raises StreamError(path) -- today that is the seven stream_* helpers; stream wrapper classes (their methods are only reached through the helpers), debug.py, Pickled and Numpy are outside the property's fragment; (R2) stream_read rejects negative lengths before reading and short data after, stream_write rejects non-bytes, negative length, length mismatch and short writes, and every helper translates; together with R1 this makes 'no value from fewer bytes than required' a per-site fact; (R3) in every parse-side method (_parse, _decode, _actualsize and their closures) every call that can raise a non-ConstructError -- package helpers whose own summary shows an escaping `raise ValueError`, struct.pack/unpack, bytes.decode/str.encode -- is covered by a handler that catches that class and raises a ConstructError subclass; opaque external calls are allowed only in the frozen list of callback/codec carriers; (R4) handlers that can swallow ExplicitError re-raise it first (shared with C13.R5); (R5) no recovery handler reads a local that is unbound on the exceptional edge entering it. (R7) every division or modulo whose divisor is computed at parse time from the context or the data is preceded on its path by a guard excluding zero (no ZeroDivisionError escapes); R2 also carries the code-unit table (a terminator narrower than the unit accepts strict prefixes). (R8) termination, loop by loop: every loop on the parse side (and in the stream/bit helpers) runs over a finite collection, or has a numeric variant moving by a step proved >= 1, or reads at least one byte of the input through stream_read in every iteration; a loop whose only progress is the call of an arbitrary sub-construct is reported (GreedyRange: known finding; RepeatUntil: frozen, the user's predicate ends it).",
+    "undecided": "Termination of recursion through LazyBound (each level is an ordinary parse; depth is bounded by the input only if every cycle consumes input -- not decided); TypeErrors from ill-typed context values; the k-th-operation fault model is covered only through R1+R2 (every operation is one of seven guarded sites).",
     "trusted_base": ["python ast (3.12)", "sa.summ summariser", "table of external raisers (struct, codecs, int.to_bytes) taken from the stdlib documentation"],
     "assumptions": ["user callbacks and third-party codecs are outside the property", "sub-constructs honour the same contract (induction over nesting)"],
 }
@@ -395,6 +395,112 @@ def check_divisors(ctx, fi, cls, rule="C06.R7"):
     return len(verdict)
 
 
+UNBOUNDED_ITERS = {"itertools.count", "itertools.cycle", "itertools.repeat", "count", "cycle", "repeat"}
+LOOP_FROZEN = {
+    "RepeatUntil._parse": "the loop ends when the user's predicate says so; user callbacks are outside the property's fragment",
+}
+
+
+def loop_kind(node):
+    """'bounded' for a for-loop / comprehension over a finite collection, 'unbounded' for while loops and infinite iterators."""
+    if isinstance(node, ast.While):
+        return "unbounded"
+    it = node.iter
+    if isinstance(it, ast.Call):
+        f = ast.unparse(it.func)
+        if f in UNBOUNDED_ITERS:
+            return "unbounded"
+        if f == "iter" and len(it.args) == 2:
+            return "unbounded"
+        if f == "zip":
+            return "bounded" if any(not (isinstance(a, ast.Call) and ast.unparse(a.func) in UNBOUNDED_ITERS) for a in it.args) else "unbounded"
+    return "bounded"
+
+
+def numeric_variant(fn, loop):
+    """while-test mentions a local that the body changes unconditionally by a step known to be >= 1 (constant, or a local guarded by `if step < 1: raise`)."""
+    if not isinstance(loop, ast.While):
+        return None
+    names = {n.id for n in ast.walk(loop.test) if isinstance(n, ast.Name)}
+    for st in loop.body:
+        if isinstance(st, ast.AugAssign) and isinstance(st.target, ast.Name) and st.target.id in names and isinstance(st.op, (ast.Sub, ast.Add, ast.RShift, ast.FloorDiv)):
+            step = st.value
+            if isinstance(step, ast.Constant) and isinstance(step.value, int) and step.value >= 1 and not (isinstance(st.op, ast.FloorDiv) and step.value < 2):
+                return "%s %s= %s" % (st.target.id, {ast.Sub: "-", ast.Add: "+", ast.RShift: ">>", ast.FloorDiv: "//"}[type(st.op)], step.value)
+            if isinstance(step, ast.Name) and isinstance(st.op, (ast.Sub, ast.Add)):
+                for g in ast.walk(fn):
+                    if not (isinstance(g, ast.If) and any(isinstance(x, ast.Raise) for x in g.body) and g.lineno < loop.lineno):
+                        continue
+                    t = g.test
+                    neg = False
+                    if isinstance(t, ast.UnaryOp) and isinstance(t.op, ast.Not):
+                        t, neg = t.operand, True
+                    if not (isinstance(t, ast.Compare) and len(t.ops) == 1):
+                        continue
+                    l, op, r = t.left, type(t.ops[0]), t.comparators[0]
+                    if isinstance(l, ast.Constant) and isinstance(r, ast.Name):
+                        l, r, op = r, l, {ast.Lt: ast.Gt, ast.Gt: ast.Lt, ast.LtE: ast.GtE, ast.GtE: ast.LtE}.get(op, op)
+                    if not (isinstance(l, ast.Name) and l.id == step.id and isinstance(r, ast.Constant) and isinstance(r.value, int)):
+                        continue
+                    c = r.value
+                    # the raise happens when the test holds; past it, the negation holds
+                    past_ge1 = (not neg and ((op is ast.Lt and c >= 1) or (op is ast.LtE and c >= 0))) or (neg and ((op is ast.GtE and c >= 1) or (op is ast.Gt and c >= 0)))
+                    if past_ge1:
+                        return "%s changes by %s, which is >= 1 past the guard on line %d" % (st.target.id, step.id, g.lineno)
+    return None
+
+
+def check_progress(ctx, fi, cls, rule="C06.R8"):
+    """Every loop on the parse side ends on every input: it runs over a finite collection, or every iteration reads at least one byte
+    from the (finite) input through stream_read, or a numeric variant moves by a positive step.  A loop whose only progress is a call of
+    an arbitrary sub-construct does not end when that construct consumes nothing."""
+    n = 0
+    loops = [x for x in ast.walk(fi.node) if isinstance(x, (ast.While, ast.For))]
+    comps = [g for x in ast.walk(fi.node) if isinstance(x, (ast.ListComp, ast.GeneratorExp, ast.DictComp, ast.SetComp)) for g in x.generators]
+    for g in comps:
+        n += 1
+        ctx.ob(rule, fi, loop_kind(g) == "bounded", "comprehension over %s is bounded" % ast.unparse(g.iter)[:60], key="comprehension over %s" % norm_text(g.iter)[:80], node=g.iter)
+    if not loops:
+        return n
+    paths = paths_of(ctx, fi, cls)
+    for lp in loops:
+        n += 1
+        what = "for %s" % ast.unparse(lp.iter)[:50] if isinstance(lp, ast.For) else "while %s" % ast.unparse(lp.test)[:50]
+        key = "loop " + (norm_text(lp.iter) if isinstance(lp, ast.For) else norm_text(lp.test))[:80]
+        if loop_kind(lp) == "bounded":
+            ctx.ob(rule, fi, True, "%s iterates a finite collection" % what, key=key, node=lp)
+            continue
+        nv = numeric_variant(fi.node, lp)
+        if nv:
+            ctx.ob(rule, fi, True, "%s has the numeric variant %s" % (what, nv), key=key, node=lp)
+            continue
+        # every iteration reads >= 1 byte of the input
+        seen, good = 0, True
+        for p in paths:
+            conj = []
+            for i, e in enumerate(p.events):
+                if e.kind == "ASSUME":
+                    c = e["cond"]
+                    conj.extend(c[2] if c[0] == "bool" and c[1] == "and" else (c,))
+                if e.kind == "ITER" and not e.depth:
+                    lpev = next((x for x in p.events[:i] if x.kind == "LOOP" and x["lid"] == e["lid"]), None)
+                    if lpev is None or lpev.node is not lp:
+                        continue
+                    seen += 1
+                    seg = []
+                    for x in p.events[i + 1:]:
+                        if x.kind in ("ITER", "LOOPEND") and x["lid"] == e["lid"]:
+                            break
+                        seg.append(x)
+                    rd = [x for x in seg if x.kind == "READ" and x["stream"] == STREAM and not x.depth]
+                    good = good and any(nonzero(x["length"], conj) for x in rd)
+        frozen = LOOP_FROZEN.get(fi.qual)
+        ctx.ob(rule, fi, (good and seen > 0) or bool(frozen),
+               "%s: every iteration reads at least one byte of the input (otherwise the loop does not end when the iterated sub-construct consumes nothing, e.g. a zero-width element)" % what,
+               key=key, node=lp, detail=frozen)
+    return n
+
+
 def run(ctx):
     M = ctx.model
     S = summariser(ctx)
@@ -430,6 +536,15 @@ def run(ctx):
     for fi, cls in protocol_functions(M, PARSE_SIDE):
         check_divisors(ctx, fi, cls)
     ctx.floor("C06.R7", 4)
+    # ---------------------------------------------------------------- R8 termination: loop progress
+    for fi, cls in protocol_functions(M, PARSE_SIDE):
+        check_progress(ctx, fi, cls)
+    for name in ("stream_read", "stream_read_entire", "stream_seek", "stream_tell", "stream_size", "stream_iseof", "bytes2bits", "bits2bytes", "bits2integer", "bytes2integer",
+                 "swapbytes", "swapbytesinbits", "swapbitsinbytes"):
+        f = M.functions.get(name)
+        if f is not None:
+            check_progress(ctx, f, None)
+    ctx.floor("C06.R8", 20)
     # a terminator narrower than the code unit accepts strict prefixes of canonical encodings (shared with C03.R2)
     from . import C03
     C03.unit_table_check(ctx, "C06.R2")
@@ -467,3 +582,23 @@ def run(ctx):
     ctx.control("C06.R1", "C06.R1" in bad)
     ctx.control("C06.R3", bad.count("C06.R3") == 2, str(bad))
     ctx.control("C06.R5", "C06.R5" in bad)
+    ctl8 = control_model(
+        "import itertools\n"
+        "def stream_read(stream, length, path):\n    return stream.read(length)\n"
+        "class Construct(object):\n    pass\n"
+        "class Y(Construct):\n"
+        "    def _parse(self, stream, context, path):\n"
+        "        out = []\n"
+        "        for i in itertools.count():\n"
+        "            out.append(self.subcon._parsereport(stream, context, path))\n"
+        "        return out\n"
+        "class Z(Construct):\n"
+        "    def _parse(self, stream, context, path):\n"
+        "        while True:\n"
+        "            b = stream_read(stream, 1, path)\n"
+        "            if b == b'\\x00':\n                break\n"
+        "        return b\n")
+    c8 = Ctx("C06", ctx.tier, ctl8.root, model=ctl8)
+    check_progress(c8, ctl8.method("Y", "_parse"), "Y")
+    check_progress(c8, ctl8.method("Z", "_parse"), "Z")
+    ctx.control("C06.R8", [o.ok for o in c8.obligations] == [False, True])
